@@ -23,7 +23,9 @@ import (
 	"verifmc/checks"
 )
 
-const verifDir = "/verif"
+// verifDir is /verif; VERIF_DIR lets a scratch copy of the framework run next to
+// it (seeded-change trials against a scratch worktree).
+var verifDir = checks.VerifDir()
 
 func main() {
 	if len(os.Args) < 2 {
